@@ -9,7 +9,7 @@ cd /verif
 [ -z "$(git -C /repo status --short)" ] || { echo "/repo is not clean"; exit 2; }
 for d in seeded/${1:-}*/; do
   id=$(basename $d)
-  prop=$(python3 -c "import json,os; d='$d'; f=d+'/meta.json' if os.path.exists(d+'/meta.json') else d+'/meta.agent.json'; print(json.load(open(f))['property'])")
+  prop=$(python3 -c "import json,os; d='$d'; f=d+'/meta.json' if os.path.exists(d+'/meta.json') else d+'/meta.agent.json'; m=json.load(open(f)); print(m.get('regress_with', m['property']))")
   pf=/verif/$d/patch.diff
   if ! git -C /repo apply --check $pf 2>/dev/null; then
     # the code it touched was repaired since: the same change ported to HEAD, when there is one
